@@ -31,6 +31,36 @@ class Native:
         self.bins["release" if release else "debug"] = os.path.join(
             self.scr.dir, "native-target", "release" if release else "debug", "verif-native")
 
+    def build_bindings(self, log=None):
+        """second companion, linked against the scratch copy's `cooklang-bindings` crate"""
+        missing = self.scr.inject_bindings()
+        if missing:
+            raise RuntimeError("bindings crate not found in the working tree: %s" % missing)
+        self.bdir = os.path.join(self.scr.dir, "native-bindings")
+        if not os.path.isdir(self.bdir):
+            shutil.copytree(os.path.join(VERIF, "native-bindings"), self.bdir, ignore=shutil.ignore_patterns("target"))
+            ct = open(os.path.join(self.bdir, "Cargo.toml")).read().replace("COOKLANG_PATH", self.scr.repo)
+            open(os.path.join(self.bdir, "Cargo.toml"), "w").write(ct)
+            lock = os.path.join(self.scr.repo, "Cargo.lock")
+            if os.path.isfile(lock):
+                shutil.copy(lock, os.path.join(self.bdir, "Cargo.lock"))
+        env = dict(os.environ)
+        env["CARGO_NET_OFFLINE"] = "true"
+        env["RUSTFLAGS"] = "--cfg cooklang_verif"
+        p = subprocess.run(["cargo", "build", "--offline", "--target-dir", os.path.join(self.scr.dir, "native-target")],
+                           cwd=self.bdir, env=env, stdout=subprocess.PIPE, stderr=subprocess.STDOUT, text=True)
+        if log:
+            open(log, "w").write(p.stdout)
+        if p.returncode != 0:
+            raise RuntimeError("native (bindings) build failed:\n" + p.stdout[-3000:])
+        self.bbin = os.path.join(self.scr.dir, "native-target", "debug", "verif-native-bindings")
+
+    def call_bindings(self, *args):
+        p = subprocess.run([self.bbin] + [str(a) for a in args], stdout=subprocess.PIPE, stderr=subprocess.PIPE, text=True)
+        if p.returncode != 0:
+            return {"error": p.stderr[-500:], "returncode": p.returncode}
+        return json.loads(p.stdout)
+
     def call(self, *args, profile="debug"):
         p = subprocess.run([self.bins[profile]] + [str(a) for a in args], stdout=subprocess.PIPE, stderr=subprocess.PIPE, text=True)
         if p.returncode != 0:
